@@ -117,6 +117,10 @@ def innermost_is_urwid(exc: BaseException, _depth: int = 0) -> bool:
     return False
 
 
+class _BudgetStop(BaseException):
+    """the shard's budget ran out inside a Hypothesis campaign (the run is marked inconclusive by Ctx.expired)"""
+
+
 class Ctx:
     """Per-worker context: counters + helpers. Everything here ends up in the evidence file."""
 
@@ -299,7 +303,7 @@ class Ctx:
         @given(strategy)
         def test(case):
             if state["t"] is None and ctx.expired():
-                return
+                raise _BudgetStop  # not an Exception: hypothesis lets it through, no more examples are generated
             if state["t"] is not None and time.monotonic() - state["t"] > shrink_budget:
                 return  # let the shrinker converge on the best case so far
             if state["t"] is None:
@@ -320,7 +324,7 @@ class Ctx:
 
         try:
             test()
-        except Violation:
+        except (Violation, _BudgetStop):
             pass
         except BaseException as e:  # noqa: BLE001  Flaky etc. after the shrink budget ran out
             if self.failure is None:
